@@ -89,6 +89,12 @@ impl Property for C11 {
         }
         let lines = crate::props::c04::gen_group_lines(t, &g.table, 14);
         let joined_lines = g.joined.as_ref().map(|j| gen_data(t, j, 8)).unwrap_or_default();
+        if let Some(j) = g.query.join.as_mut() {
+            // (what an OUTER JOIN means under an aggregate is C05's business; here only: line by line = batch)
+            if t.chance(1, 3) {
+                j.outer = true;
+            }
+        }
         let follow = g.joined.is_none() && t.chance(1, 30);
         let long = if !follow && lines.len() >= 3 && t.chance(1, 25) {
             // hundreds of refreshes: 150-1500 lines, compared at eight prefixes
